@@ -8,6 +8,7 @@
 package simrt
 
 import (
+	"unsafe"
 	"cmp"
 	"fmt"
 	"math/rand/v2"
@@ -42,6 +43,7 @@ type G struct {
 	prio  int             // PCT priority
 	idleFor time.Duration // AwaitQuiescence: required idle time
 	goid  uint64
+	vc    vclock // happens-before clock (race tracking only)
 }
 
 // Choice is one recorded decision.
@@ -64,6 +66,7 @@ type Config struct {
 	IdleBound  time.Duration // simulated idle time after which the run counts as quiescent
 	KeepLabels bool
 	MaxAdvIdx  int // number of clock-advance ladder entries usable while goroutines are runnable (0 = all)
+	Race       bool // track happens-before and report unordered map accesses (needs a build made with simify -mappkgs)
 }
 
 // Stats of one run.
@@ -84,6 +87,7 @@ type Stats struct {
 	StallInfo      string // who waits where
 	Leaked         int    // goroutines not finished at end of run
 	WaitersAtEnd   string // goroutines waiting for locks / wait groups when the run ended
+	MapRaces       []string // pairs of map accesses not ordered by happens-before (race tracking only)
 }
 
 // Sim is one simulated run.
@@ -113,6 +117,7 @@ type Sim struct {
 	OnStep func()
 	// failure raised by harness code (first one wins)
 	failure *Failure
+	hb      *hbState
 }
 
 // Failure is a property violation detected during or after a run.
@@ -164,6 +169,7 @@ func ctx() (*Sim, *G) {
 		g.state = gRunning
 		s.byGoid[id] = g
 		s.stats.Foreign++
+		s.hbStart(nil, g)
 	}
 	s.mu.Unlock()
 	return s, g
@@ -198,6 +204,20 @@ func Yield(site string) {
 		return
 	}
 	s.park(g, site, gParked)
+	if s.hb != nil {
+		switch {
+		case isAtomicSite(site):
+			// the atomic operation follows: all atomics synchronise with each other (coarser than reality)
+			s.mu.Lock()
+			s.hbAcquire(g, atomicKey{})
+			s.hbRelease(g, atomicKey{})
+			s.mu.Unlock()
+		case strings.HasSuffix(site, "#ctxerr"):
+			s.mu.Lock()
+			s.hbBarrier(g)
+			s.mu.Unlock()
+		}
+	}
 }
 
 // Go replaces a go statement.
@@ -215,7 +235,13 @@ func Go(site string, f func()) {
 		return
 	}
 	g := s.newG(site)
-	_ = id
+	if s.hb != nil {
+		if parent := s.byGoid[id]; parent != nil {
+			s.hbStart(parent, g)
+		} else {
+			s.hbStart(nil, g)
+		}
+	}
 	s.mu.Unlock()
 	go func() {
 		me := goid()
@@ -245,22 +271,28 @@ func Go(site string, f func()) {
 
 // Recv is `<-c` followed by a yield.
 func Recv[T any](site string, c <-chan T) T {
+	ChanRel(c, false)
 	v := <-c
 	Yield(site)
+	ChanAcq(c, false)
 	return v
 }
 
 // Recv2 is `v, ok := <-c` followed by a yield.
 func Recv2[T any](site string, c <-chan T) (T, bool) {
+	ChanRel(c, false)
 	v, ok := <-c
 	Yield(site)
+	ChanAcq(c, false)
 	return v, ok
 }
 
 // Send is `c <- v` followed by a yield.
 func Send[T any](site string, c chan<- T, v T) {
+	ChanRel(c, true)
 	c <- v
 	Yield(site)
+	ChanAcq(c, true)
 }
 
 // Sleep is time.Sleep followed by a yield.
@@ -300,6 +332,13 @@ func Lock(site string, m locker) {
 		s.mu.Unlock()
 		s.park(g, site, gParked)
 		m.Lock()
+		if s.hb != nil {
+			s.mu.Lock()
+			k := s.hbLockKey(m)
+			s.hbAcquire(g, k)
+			s.hbAcquireR(g, k)
+			s.mu.Unlock()
+		}
 		return
 	}
 	s.park(g, site, gParked)
@@ -309,10 +348,24 @@ func Lock(site string, m locker) {
 		s.mu.Unlock()
 		s.park(g, site, gLockWait)
 	}
+	if s.hb != nil {
+		s.mu.Lock()
+		k := s.hbLockKey(m)
+		s.hbAcquire(g, k)
+		s.hbAcquireR(g, k)
+		s.mu.Unlock()
+	}
 }
 
 // Unlock replaces m.Unlock().
 func Unlock(site string, m locker) {
+	if s := active.Load(); s != nil && s.hb != nil {
+		if _, g := ctx(); g != nil {
+			s.mu.Lock()
+			s.hbRelease(g, s.hbLockKey(m))
+			s.mu.Unlock()
+		}
+	}
 	m.Unlock()
 	wakeLockWaiters()
 }
@@ -328,6 +381,11 @@ func RLock(site string, m rlocker) {
 	if !ok {
 		s.park(g, site, gParked)
 		m.RLock()
+		if s.hb != nil {
+			s.mu.Lock()
+			s.hbAcquire(g, s.hbLockKey(m))
+			s.mu.Unlock()
+		}
 		return
 	}
 	s.park(g, site, gParked)
@@ -337,10 +395,22 @@ func RLock(site string, m rlocker) {
 		s.mu.Unlock()
 		s.park(g, site, gLockWait)
 	}
+	if s.hb != nil {
+		s.mu.Lock()
+		s.hbAcquire(g, s.hbLockKey(m))
+		s.mu.Unlock()
+	}
 }
 
 // RUnlock replaces m.RUnlock().
 func RUnlock(site string, m rlocker) {
+	if s := active.Load(); s != nil && s.hb != nil {
+		if _, g := ctx(); g != nil {
+			s.mu.Lock()
+			s.hbReleaseR(g, s.hbLockKey(m))
+			s.mu.Unlock()
+		}
+	}
 	m.RUnlock()
 	wakeLockWaiters()
 }
@@ -378,6 +448,11 @@ func WgAdd(site string, wg *sync.WaitGroup, n int) {
 		p = new(int)
 		s.wgs[wg] = p
 	}
+	if s.hb != nil {
+		if g := s.byGoid[goid()]; g != nil {
+			s.hbRelease(g, unsafe.Pointer(wg))
+		}
+	}
 	*p += n
 	if *p < 0 {
 		s.mu.Unlock()
@@ -410,6 +485,7 @@ func WgWait(site string, wg *sync.WaitGroup) {
 		s.mu.Lock()
 		p := s.wgs[wg]
 		if p == nil || *p == 0 {
+			s.hbAcquire(g, unsafe.Pointer(wg))
 			s.mu.Unlock()
 			return
 		}
@@ -463,6 +539,9 @@ func MapKeys[M ~map[K]V, K cmp.Ordered, V any](site string, m M) []K {
 	}
 	sort.Slice(keys, func(i, j int) bool { return cmp.Less(keys[i], keys[j]) })
 	s, g := ctx()
+	if g != nil && s.hb != nil && m != nil {
+		mapAccessed(s, mapPtr(m), func() any { return m }, false, strings.TrimSuffix(site, "#maprange"))
+	}
 	if g == nil || len(keys) < 2 {
 		return keys
 	}
@@ -611,6 +690,7 @@ func New(cfg Config) *Sim {
 		}
 	}
 	s.rootGo = goid()
+	s.hbInit()
 	return s
 }
 
@@ -650,6 +730,7 @@ func (s *Sim) Run(main func()) {
 	s.mu.Lock()
 	s.mainG = s.newG("main")
 	mg := s.mainG
+	s.hbStart(nil, mg)
 	s.mu.Unlock()
 	go func() {
 		me := goid()
